@@ -24,7 +24,7 @@ import sim
 import views
 
 PID = "C06"
-PROPS = ["Aldy.Props.C06"]
+PROPS = ["Aldy.Props.C06", "Aldy.Props.C06Table"]
 TRUSTED_EXTRA = ["pysam/htslib (BAM writing, fetch, aligned pairs of the oracle)", "indelpost: indel support counts are an input of the model"]
 ASSUMPTIONS = ["DNA alignments: CIGAR operations M,=,X,I,D,S,H (no N/P)", "reads are at least one base long"]
 
